@@ -330,6 +330,10 @@ class EditBFS:
             "editable fields, and (C07 only) a well-formed but non-canonical "
             "'legacy' metafile with keys in insertion order; top-level keys "
             "named like info-level editable fields are not in the alphabet",
+            "the metafile named through several spellings of its path (relative, "
+            "dot segments, through a symlinked directory and back with '..'): "
+            "the named file changes and nothing else does",
+            "C06's creation sweep also writes over an existing, much longer file",
             "a length sweep: edits of a metafile with a long piece string "
             "whose results take every byte length in a window around 8, 16, "
             "32 and 64 KiB",
@@ -363,6 +367,7 @@ class EditBFS:
                                "order": order, "seed": seed, "tier": tier})
         if self.id == "C07":
             gs.append({"kind": "cli-orders", "seed": seed, "tier": tier})
+            gs.append({"kind": "spellings", "seed": seed, "tier": tier})
         # metafile length sweep: the edited file takes every length in a
         # window around 8 KiB, 16 KiB, 32 KiB and 64 KiB (buffer sizes)
         for target in (8192, 16384, 32768, 65536):
@@ -422,6 +427,86 @@ class EditBFS:
             if before_raw[s:e] != after_raw[s2:e2]:
                 probs.append(("info-bytes-changed-by-tracker-only-edit", None))
         return model._dedup(probs)
+
+    def run_spellings(self, g):
+        """The metafile named through different spellings of its path: the
+        named file is the one that changes, nothing else in the sandbox does."""
+        res = core.Result()
+        seed = g["seed"]
+        for ver in ("v1", "hy"):
+            for route in ("lib", "cli"):
+                for sp in ("abs", "rel", "./rel", "sub/../rel", "link/../rel",
+                           "linkdir/rel", "abs-via-link"):
+                    sb = world.fresh_dir("c7s_")
+                    work = os.path.join(sb, "work")
+                    store = os.path.join(sb, "store")
+                    os.makedirs(os.path.join(work, "sub"))
+                    os.makedirs(os.path.join(store, "inbox"))
+                    raw0 = make_base((ver, "full"), seed, sb)
+                    bystander = b"d4:infod4:name1:xee"
+                    if sp == "link/../rel":
+                        # link -> store/inbox ; link/../m.torrent is
+                        # store/m.torrent for the OS, work/m.torrent lexically
+                        os.symlink(os.path.join(store, "inbox"),
+                                   os.path.join(work, "link"))
+                        real = os.path.join(store, "m.torrent")
+                        arg, cwd = "link/../m.torrent", work
+                        world.write_file(os.path.join(work, "m.torrent"),
+                                         bystander)
+                    elif sp in ("linkdir/rel", "abs-via-link"):
+                        os.symlink(store, os.path.join(work, "linkdir"))
+                        real = os.path.join(store, "m.torrent")
+                        arg = "linkdir/m.torrent" if sp == "linkdir/rel" \
+                            else os.path.join(work, "linkdir", "m.torrent")
+                        cwd = work
+                    else:
+                        real = os.path.join(work, "m.torrent")
+                        arg = {"abs": real, "rel": "m.torrent",
+                               "./rel": "./m.torrent",
+                               "sub/../rel": "sub/../m.torrent"}[sp]
+                        cwd = work
+                    world.write_file(real, raw0)
+                    req = (("comment", "spelled"), ("url-list",
+                                                    ["http://w9/"]))
+                    before = world.snapshot(sb, with_bytes=True)
+                    old = os.getcwd()
+                    os.chdir(cwd)
+                    err = None
+                    try:
+                        apply_request(route, arg, req)
+                    except BaseException as e:  # noqa
+                        err = type(e).__name__
+                    finally:
+                        os.chdir(old)
+                    after = world.snapshot(sb, with_bytes=True)
+                    res.states += 1
+                    res.transitions += 1
+                    res.evals += 1
+                    res.validated += 1
+                    probs = []
+                    rel = os.path.relpath(real, sb)
+                    changed = sorted(k for k in set(before) | set(after)
+                                     if before.get(k) != after.get(k))
+                    if err:
+                        probs.append("edit-raised:" + err)
+                    else:
+                        others = [c for c in changed if c != rel]
+                        if others:
+                            probs.append("other-path-changed")
+                        if rel not in changed:
+                            probs.append("named-metafile-not-edited")
+                        else:
+                            probs += [p for p, _ in self.judge_transition(
+                                raw0, after[rel][2], req)]
+                    res.outcomes["spelling:" + (probs[0] if probs else
+                                                "ok")] += 1
+                    for p in probs:
+                        res.violation(
+                            f"C07|{route}|{p}|path-spelling:{sp}",
+                            {"kind": "spelling", "ver": ver, "route": route,
+                             "sp": sp, "seed": seed}, {"changed": changed})
+        res.sample({"kind": "spellings"})
+        return res
 
     def run_length(self, g):
         """Edits whose results take every byte length in a window around a
@@ -497,6 +582,8 @@ class EditBFS:
             return self.run_create(g)
         if g["kind"] == "length":
             return self.run_length(g)
+        if g["kind"] == "spellings":
+            return self.run_spellings(g)
         if g["kind"] == "cli-orders":
             return self.run_cli_orders(g)
         res = core.Result()
@@ -646,6 +733,10 @@ class EditBFS:
                     parent = world.fresh_dir()
                     root = world.materialize(files, parent)
                     out = os.path.join(parent, "o.torrent")
+                    if mask % 2 == 1 or mask >= 16:
+                        # the output path already holds a (much longer) file
+                        with open(out, "wb") as f:
+                            f.write(b"d4:junk" + b"x" * 200000 + b"e")
                     tf.reset_process_state()
                     ctx = seams.nullctx() if g["order"] == "native" else \
                         seams.listing_order(g["order"], under=parent)
@@ -693,11 +784,20 @@ class EditBFS:
                         kw[o] = OPTS_ALL[o]
             ctx = seams.nullctx() if case["order"] == "native" else \
                 seams.listing_order(case["order"], under=parent)
+            if case["mask"] % 2 == 1 or case["mask"] >= 16:
+                with open(os.path.join(parent, "o.torrent"), "wb") as f:
+                    f.write(b"d4:junk" + b"x" * 200000 + b"e")
             with ctx:
                 raw = tf.create(case["creator"], root,
                                 os.path.join(parent, "o.torrent"), P0, **kw)
             cp, _ = canonical_problems(raw)
             return [{"sig": f"C06|create|{p}", "detail": p} for p in cp]
+        if case.get("kind") == "spelling":
+            r = self.run_spellings({"seed": seed, "tier": "quick"})
+            return [{"sig": v["sig"], "detail": v["detail"]}
+                    for v in r.violations
+                    if all(v["case"][k] == case[k]
+                           for k in ("ver", "route", "sp"))]
         if case.get("kind") == "length":
             r = self.run_length({"seed": seed, "target": case["target"],
                                  "ver": case["ver"]})
